@@ -211,6 +211,33 @@ impl Edge {
     }
 
     ///
+    /// write an edge received from a peer, unless its deletion (at this creation date or a later one) is logged
+    ///
+    pub fn write_unless_deleted(
+        &self,
+        conn: &Connection,
+    ) -> std::result::Result<(), rusqlite::Error> {
+        let mut deleted_stmt = conn.prepare_cached(
+            "SELECT 1 FROM _edge_deletion_log
+            WHERE 
+                src = ? AND
+                label = ? AND
+                dest = ? AND
+                cdate >= ?
+            LIMIT 1",
+        )?;
+        let deleted: Option<i64> = deleted_stmt
+            .query_row((&self.src, &self.label, &self.dest, &self.cdate), |row| {
+                row.get(0)
+            })
+            .optional()?;
+        if deleted.is_some() {
+            return Ok(());
+        }
+        self.write(conn)
+    }
+
+    ///
     /// Low level method to hard delete an edge.
     ///
     /// This method is intended to be used in the write thread wich perform operations in larges batches.
